@@ -80,6 +80,45 @@ def valid_bases(name, mod, n, rnd, synth):
                     seen.add(u)
                     out.append(u)
                     break
+    # neighbours of the digit strings the module's source mentions (special prefixes such as the SIREN of La Poste): numbers that
+    # share all but the last one or two digits of such a literal, completed to a valid number by searching one inner position
+    # and the last character -- where a special case that was widened or narrowed by a digit shows
+    found = 0
+    for b in bases[:1]:
+        if not (b.isascii() and b.isdigit()):
+            continue
+        for L in inputs.literals(mod, minlen=4, maxlen=max(4, len(b) - 1), cap=40):
+            if not L.isdigit() or found >= 9:
+                continue
+            for k in (len(L), len(L) - 1, len(L) - 2):        # the literal itself continued by each digit, and its neighbours
+                for d in '0123456789':
+                    pre = L[:k] + d
+                    if (k < len(L) and L.startswith(pre)) or len(pre) >= len(b):
+                        continue
+                    t = pre + b[len(pre):]
+                    hit = None
+                    for j in range(len(pre), len(t) - 1):
+                        for dj in '0123456789':
+                            for dl in '0123456789':
+                                u = t[:j] + dj + t[j + 1:-1] + dl
+                                if u in seen:
+                                    continue
+                                try:
+                                    if mod.is_valid(u) is True and mod.validate(u) == u:
+                                        hit = u
+                                        break
+                                except Exception:
+                                    pass
+                            if hit:
+                                break
+                        if hit:
+                            break
+                    if hit:
+                        seen.add(hit)
+                        out.append(hit)
+                        found += 1
+                        if k < len(L) or d == '3':          # continuations of the literal itself: several next digits
+                            break
     return out
 
 
@@ -90,12 +129,24 @@ def worker(unit, emit):
     bases = valid_bases(name, mod, p['bases'], rnd, p['synth'])
     emit.count('modules')
     emit.count('bases', len(bases))
-    for v in bases:
+    from props import api_common as ac
+    optsets = [{}] + [kw for kw in ac.option_sets(name, mod, fn='validate')[1:]]       # documented options (isbn convert=True, ...)
+    for v, kw in [(v, kw) for v in bases for kw in optsets]:
         if b.get('only_len') and len(v) not in b['only_len']:
             continue
-        bacc = mod.is_valid(v) is True
+        rb = lib.call(mod.validate, v, **kw)
+        bacc = rb['k'] == 'ret'
+        if kw and not bacc:
+            continue
+        okw = ' ' + ac.opt_id(kw) if kw else ''
+        if any(v.startswith(x) for x in b.get('exclude_prefix', [])):
+            continue
+        lo_, hi_ = (b.get('pos') or [0, None])
+        covered = range(len(v))[slice(lo_, hi_)]
         if b.get('subst', True):
             for i, c in enumerate(v):
+                if i not in covered:
+                    continue
                 if c.isdigit():
                     alts = [d for d in '0123456789' if d != c]
                 elif c.isascii() and c.isupper():
@@ -104,20 +155,20 @@ def worker(unit, emit):
                     continue
                 for a in alts:
                     ed = v[:i] + a + v[i + 1:]
-                    r = lib.call(mod.is_valid, ed)
+                    r = lib.call(mod.is_valid, ed) if not kw else lib.call(mod.validate, ed, **kw)
                     emit.count('neighbours')
                     emit.trace([{'m': name, 'kind': 'subst', 'base': lib.cps(v), 'ed': lib.cps(ed), 'bacc': bacc,
-                                 'acc': r['k'] == 'ret' and r['b'] is True}],
-                               {'m': name, 'w': ed, 'base': v, 'how': 'subst@%d' % i})
+                                 'acc': (r['k'] == 'ret' and r['b'] is True) if not kw else r['k'] == 'ret'}],
+                               {'m': name, 'w': ed, 'base': v, 'how': 'subst@%d%s' % (i, okw)})
         if b.get('swap', False) and not (b.get('swap_only_len') and len(v) not in b['swap_only_len']):
             for i in range(len(v) - 1):
                 if v[i] != v[i + 1] and v[i].isdigit() and v[i + 1].isdigit():
                     ed = v[:i] + v[i + 1] + v[i] + v[i + 2:]
-                    r = lib.call(mod.is_valid, ed)
+                    r = lib.call(mod.is_valid, ed) if not kw else lib.call(mod.validate, ed, **kw)
                     emit.count('neighbours')
                     emit.trace([{'m': name, 'kind': 'swap', 'base': lib.cps(v), 'ed': lib.cps(ed), 'bacc': bacc,
-                                 'acc': r['k'] == 'ret' and r['b'] is True}],
-                               {'m': name, 'w': ed, 'base': v, 'how': 'swap@%d' % i})
+                                 'acc': (r['k'] == 'ret' and r['b'] is True) if not kw else r['k'] == 'ret'}],
+                               {'m': name, 'w': ed, 'base': v, 'how': 'swap@%d%s' % (i, okw)})
 
 
 def main():
